@@ -162,6 +162,19 @@ def run(ctx):
             if calls[0] > len(d) or dt > 1.0 or r == "timeout":
                 ctx.fail("boc-parser-driven-by-count-field", f"{len(d)}-byte input: {calls[0]} cell parses, {dt:.2f}s, {r[:30]}",
                          {"boc": d.hex()})
+    # the same lie under the two legacy magics (serialized_boc_idx / _idx_crc32c: the index is always present)
+    for magic in ("68ff65f3", "acc3a728"):
+        for cells_num, size, off in [(2 ** 32 - 1, 4, 1), (2 ** 24 - 1, 3, 2), (2 ** 16 - 1, 2, 1)]:
+            d = bytes.fromhex(magic) + bytes([size, off]) + cells_num.to_bytes(size, "big") + (1).to_bytes(size, "big") + \
+                (0).to_bytes(size, "big") + (2).to_bytes(off, "big") + bytes(off) + bytes([0, 0])
+            n_adv += 1
+            ctx.note_case(["boc-adversarial", d.hex()])
+            t0 = time.time()
+            r = core.call_impl(lambda _: boc.py_parse(d.hex()), None, timeout_s=10)
+            dt = time.time() - t0
+            if dt > 1.0 or r == "timeout" or r.startswith("ok"):
+                ctx.fail("boc-parser-driven-by-count-field", f"{len(d)}-byte {magic} input claiming {cells_num} cells: {dt:.2f}s, {r[:30]}",
+                         {"boc": d.hex()})
     ctx.extra["adversarial_headers"] = n_adv
 
     # the same shared sub-DAG present TWICE as distinct Python objects (as after parsing one bag twice), joined under one
